@@ -76,14 +76,32 @@ def members_of(t):
 # stmt: ("if", [(cond, block), ...], else_block|None) ("return", R) ("error", id) ("pass",)
 
 
+def _sys_conds():
+    """Version conditions around the running interpreter (tuples of length 1, 2, 3 and 5, one minor / micro step
+    either way) under all six operators, and platform (in)equalities against the real and another name."""
+    major, minor, micro = sys.version_info[:3]
+    tuples = [(major,), (major + 1,), (2, 7), (major, minor), (major, minor - 1), (major, minor + 1), (major, minor, 0),
+              (major, minor, micro), (major, minor, micro + 1), (major, minor + 1, 0), tuple(sys.version_info), (3, 8), (3, 0)]
+    out = []
+    for tup in tuples:
+        for op in ("==", "!=", "<", "<=", ">", ">="):
+            out.append(f"sys.version_info {op} {tup!r}")
+    for name in (sys.platform, "nonexistent-os"):
+        for op in ("==", "!="):
+            out.append(f"sys.platform {op} {name!r}")
+    return out
+
+
+SYS_CONDS = _sys_conds()
+
+
 def cond_strategy(params, depth=1):
     p = st.sampled_from(params)
     base = st.one_of(
         st.tuples(st.just("oftype"), p, st.sampled_from(TEST_TYPES), st.sampled_from([True, True, False])),
         st.tuples(st.just("cmp"), p, st.sampled_from(["==", "!=", "is", "is not"]), st.sampled_from(LITS)),
         st.tuples(st.just("kind"), st.sampled_from(["is_provided", "is_positional", "is_keyword"]), p),
-        st.tuples(st.just("sys"), st.sampled_from(["sys.version_info >= (3, 8)", "sys.version_info < (3, 0)",
-                                                  'sys.platform == "nonexistent-os"', 'sys.platform != "nonexistent-os"'])),
+        st.tuples(st.just("sys"), st.sampled_from(SYS_CONDS)),
     )
     if depth == 0:
         return base
